@@ -19,7 +19,14 @@ var OpByName = map[string]int{}
 
 func init() {
 	for i := -8; i < 256; i++ {
-		if n := goatlang.VerifOpName(i); n != "" {
+		// (a name table that cannot render one of these numbers must not take the harness down: the checks
+		// that print instructions will meet it through the code under test)
+		n := ""
+		func() {
+			defer func() { _ = recover() }()
+			n = goatlang.VerifOpName(i)
+		}()
+		if n != "" {
 			OpNames[i] = n
 			OpByName[n] = i
 		}
